@@ -1858,7 +1858,7 @@ REQUIRED = ['pav_eq_spec', 'pavSpec_some_iff', 'pav_returns_iff_unique_maximiser
 
 UNPROVED = [
     'schulze_correct: that the Schulze evaluator called for run-offs of more than two finalists ranks by true beatpath strength '
-    'is C05 territory; for STAR it is proved that the evaluator is called on exactly the member matrix (star_eq_schulze_of_runoff, '
+    'is C05 territory (proved there for the Condorcet model: widestPaths_correct + schulze_defining; the integer-valued Schulze inside the STAR model is a second model, tied to the code by the correspondence, and the bridge between the two models is not proved); for STAR it is proved that the evaluator is called on exactly the member matrix (star_eq_schulze_of_runoff, '
     'star_members_spec, star_member_matrix) and that two finalists are decided by pairwise majority (star_two_finalists)',
     'allocated score after an elect-all round: the ballot state the loop continues with depends on the order in which the tied '
     'leaders quotas are spent (FALSE as a function of the election: allocated_tie_order_witness, open finding '
